@@ -50,7 +50,7 @@ def keyed_choice(pool, seed, *key):
 
 # ------------------------------------------------------------- generation
 def gen_case(rng, sim, nmax=12, buggify=None, horizon=None, allow_rho=True, directed=None,
-             zero_delays=True):
+             zero_delays=True, selfloops=0.0):
     time, model, has_r0, finite_default = SIMS[sim]
     label = rng.choice(cases.LABEL_SCHEMES)
     ew = rng.choice([None, None, None, "dyadic", "tenth", "somezero", "twolevel", "wide", "tiny"])
@@ -63,7 +63,8 @@ def gen_case(rng, sim, nmax=12, buggify=None, horizon=None, allow_rho=True, dire
         c = contagion.gen_complex_case(rng)
         case.update({k: c[k] for k in ("graph", "model", "params", "IC", "ret")})
     else:
-        spec = cases.gen_graph(rng, 1, nmax, directed=False, label=label, edge_w=ew, node_w=nw)
+        spec = cases.gen_graph(rng, 1, nmax, directed=bool(directed), label=label, edge_w=ew, node_w=nw,
+                               selfloops=selfloops)
         case["graph"] = spec
         case["ew"] = bool(ew)
         case["nw"] = bool(nw)
